@@ -141,6 +141,20 @@ theorem C33_instance (X : (String → Nat → Option DErr) → ExFn) (o : Opts)
   C33_full DErr.isLimit (dsemX X) _ (ofOpts_lawful o rowFires timeFires)
     (dsemX_limitLawful X _ (ofOpts_collLawful o rowFires timeFires) hX) params p
 
+/-- the evaluator's list builtins build the whole list: no construction is cut short by a limit
+    (regenerated from evaluator/evaluator_collections.rs and evaluator_comprehension.rs: the loops of
+    `evaluate_range` run to `end`, nothing there reads a limit) -/
+theorem list_builtins_unbounded : Generated.boundedListBuiltins = [] := by decide
+
+/-- every list-producing expression of the instance, under a collection limit: the FULL value of
+    the unlimited evaluation, or the limit error — never a shortened list -/
+theorem list_builtins_full_or_error (X : (String → Nat → Option DErr) → ExFn)
+    (coll : String → Nat → Option DErr) (hc : CollLawful coll) (hX : ExLawful X coll) (e : DE) (env r : DRow)
+    (hp : (dsemX X).park coll e env r = none) :
+    (dsemX X).eval coll e env r = (dsemX X).eval (fun _ _ => none) e env r ∨
+    ∃ er, (dsemX X).eval coll e env r = .error er ∧ DErr.isLimit er = true :=
+  (dsemX_limitLawful X coll hc hX).eval e env r hp
+
 /-! ### witnesses on the concrete instance (replayed on the engine: corpus/plan/c33-*.ops) -/
 
 /-- `UNWIND [1, 2, 3] AS x RETURN DISTINCT x` -/
